@@ -22,7 +22,7 @@ DOMAIN = [None, -7, -2, -1, 0, 1, 2, 7, Fraction(1, 2), Fraction(-5, 2)]
 HEADER = ("From Coq Require Import List NArith ZArith QArith.\n"
           "From PV Require Import Lib.ListX Model.Value Model.Pratt Model.PrqlExpr Model.StaticEval Model.SqlGrammar "
           "Model.SqlTree Model.SqlPrint Model.EvalDoc Gen.GenPratt.\n"
-          "Import ListNotations.\nLocal Open Scope Z_scope.\n")
+          "Import ListNotations.\nLocal Open Scope Z_scope.\nSet Printing Depth 1000000.\n")
 DIALECTS = ["sqlite", "generic"]
 
 
